@@ -26,6 +26,8 @@ class PartiallyObservableMDP(MarkovDecisionProcess):
             if s_prob == 0.0:
                 continue
             for ns, ns_prob in self.next_state_dist(s, a).items():
+                if ns_prob == 0.0:
+                    continue
                 o_prob = self.observation_dist(a, ns).prob(o)
                 ns_dist[ns] += o_prob*s_prob*ns_prob
         tot = sum(ns_dist.values())
@@ -41,6 +43,8 @@ class PartiallyObservableMDP(MarkovDecisionProcess):
         o_dist = defaultdict(float)
         for s, s_prob in b.items():
             for ns, ns_prob in self.next_state_dist(s, a).items():
+                if ns_prob == 0.0:
+                    continue
                 for o, o_prob in self.observation_dist(a, ns).items():
                     o_dist[o] += s_prob*ns_prob*o_prob
         assert np.isclose(sum(o_dist.values()), 1)
